@@ -152,6 +152,13 @@ type Machine struct {
 	pendingNP []npRec
 	feasEvery int
 	gNow      *Term
+	sleepN    int
+	sleepHooks []sleepHook
+}
+
+type sleepHook struct {
+	k int
+	f *FuncV
 }
 
 type Observation struct {
